@@ -8,7 +8,7 @@
                                 isInWindow, nextBuffer, appendValues, advance},
                                 *{T}WindowSelectorTable.{advance, startTimes, stopTimes},
                                 *{T}EmptyWindowSelectorTable.{advance, startStopTimes}
-                                (as repaired by fixes/C41-window-tables.patch)
+                                (as repaired by fixes/C41-a-selector-as-aggregate-window.patch + fixes/C41-b-empty-windows-after-last-point.patch)
     storage/flux/table.go       table.init / do (a table whose first advance fails is Empty and skipped),
                                 {T}WindowTable.mergeValues (fillValue = 0 for count)
     storage/flux/window.go      splitWindows (no time column: one table per row, keyed by the row's
